@@ -1,6 +1,9 @@
 package zzsimrt
 
-import "sync"
+import (
+	"sync"
+	"time"
+)
 
 // Blocking operations between callers other than Lock and Once.Do, made
 // cooperative by the instrumenter (instr: blocking): the operation is tried
@@ -8,10 +11,14 @@ import "sync"
 // channel / lock operation is what finally happens, so the race detector sees
 // the happens-before edges the library's code really has.
 //
-// Unbuffered channels need a rendezvous of two callers, which a scheduler that
-// runs one caller at a time cannot stage by trying: they keep their blocking
-// operation (a caller stuck there while holding the turn is reported by the
-// progress watchdog, never as a violation).
+// An unbuffered channel needs a rendezvous of two callers, which a scheduler
+// that runs one caller at a time cannot stage by trying: a send on one keeps its
+// blocking operation (a caller stuck there while holding the turn is reported by
+// the progress watchdog, never as a violation). A receive is tried: it succeeds
+// once the channel is closed, which is what "done" channels are for. A select
+// without default becomes a loop of non-blocking tries (instr: blocking).
+// All of it applies to the caller that holds the turn only: a goroutine the
+// library started itself blocks for real, as it would anyway.
 
 //go:norace
 func turnHolder() bool {
@@ -44,10 +51,12 @@ func Recv[T any](site int, ch <-chan T) T {
 // Recv2 is `v, ok := <-ch`.
 func Recv2[T any](site int, ch <-chan T) (T, bool) {
 	Yield(site)
-	if cap(ch) == 0 || !turnHolder() {
+	if !turnHolder() {
 		v, ok := <-ch
 		return v, ok
 	}
+	// (an unbuffered channel too: a closed one - the "done" idiom - is always ready; a sender that blocks
+	// for real on one holds the turn and is the progress watchdog's business, as before)
 	for {
 		select {
 		case v, ok := <-ch:
@@ -73,6 +82,10 @@ func CondWait(site int, c *sync.Cond) {
 
 // LockerLock is l.Lock() for a lock reached through the sync.Locker interface.
 func LockerLock(site int, l sync.Locker) {
+	if !turnHolder() {
+		l.Lock()
+		return
+	}
 	switch l := l.(type) {
 	case *sync.Mutex:
 		for !l.TryLock() {
@@ -85,4 +98,16 @@ func LockerLock(site int, l sync.Locker) {
 	default:
 		l.Lock() // (e.g. RWMutex.RLocker(): no way to try; stays blocking)
 	}
+}
+
+// SelectBlocked is the default case the instrumenter adds to a select that
+// has none: no communication is ready. The turn holder gives the turn away;
+// any other goroutine just lets the processor go for a moment (its select spins
+// instead of sleeping: good enough for a simulation).
+func SelectBlocked(site int) {
+	if turnHolder() {
+		YieldBlocked(site)
+		return
+	}
+	time.Sleep(50 * time.Microsecond)
 }
